@@ -12,6 +12,9 @@ Line protocol of the `peer` domain, unit level (UDP demultiplexing).
   peer sstat <cb>                               → bytes <b> pkts <p> last <t> calls <total>
   peer cinit <anyport> <multicast> <ip> <zone> <port>  → ok
   peer cpkt <ip> <zone> <port> <len> <now>      → acc|drop rp <readPort> last <t> n <delivered>
+  peer cstop                                    → ok
+  peer cstart <now>                             → started rp <readPort> last <t> n <delivered>
+  (cpkt while stopped                           → queued rp <readPort> last <t> n <delivered>)
 zones are words without blanks, `-` = the empty zone.
 Session level (Model/PeerSession.lean):
   peer xinit <udp 0|1>                                   → ok
@@ -31,7 +34,7 @@ def showStat (c : CbStat) : String := s!"bytes {c.bytes} pkts {c.pkts} last {c.l
 def zoneOf (z : String) : String := if z == "-" then "" else z
 def showZone (z : String) : String := if z == "" then "-" else z
 
-def unitOps (srv : IO.Ref Srv) (cl : IO.Ref CL) (args : List String) : IO (Option String) := do
+def unitOps (srv : IO.Ref Srv) (cl : IO.Ref CLQ) (args : List String) : IO (Option String) := do
   match args with
   | ["fill", ip, z, port] =>
     match unhex ip, port.toInt? with
@@ -70,16 +73,28 @@ def unitOps (srv : IO.Ref Srv) (cl : IO.Ref CL) (args : List String) : IO (Optio
   | ["cinit", any, mc, ip, z, port] =>
     match unhex ip, port.toInt? with
     | some i, some p =>
-      cl.set { anyPort := any == "1", multicast := mc == "1", readIP := i, readZone := zoneOf z, readPort := p }
+      cl.set { cl := { anyPort := any == "1", multicast := mc == "1", readIP := i, readZone := zoneOf z, readPort := p } }
       return some "ok"
     | _, _ => return some "bad-op"
   | ["cpkt", ip, z, port, len, now] =>
     match unhex ip, port.toInt?, len.toNat?, now.toInt? with
     | some i, some p, some l, some t =>
-      let (s, acc) := (← cl.get).recv i (zoneOf z) p l t
-      cl.set s
-      return some s!"{if acc then "acc" else "drop"} rp {s.readPort} last {s.last} n {s.delivered.length}"
+      let (q, acc) := (← cl.get).deliver i (zoneOf z) p l t
+      cl.set q
+      let w := match acc with
+        | some true => "acc"
+        | some false => "drop"
+        | none => "queued"
+      return some s!"{w} rp {q.cl.readPort} last {q.cl.last} n {q.cl.delivered.length}"
     | _, _, _, _ => return some "bad-op"
+  | ["cstop"] => cl.modify CLQ.stop; return some "ok"
+  | ["cstart", now] =>
+    match now.toInt? with
+    | some t =>
+      let q := (← cl.get).start t
+      cl.set q
+      return some s!"started rp {q.cl.readPort} last {q.cl.last} n {q.cl.delivered.length}"
+    | none => return some "bad-op"
   | _ => return none
 
 def stateName : SState → String
@@ -139,7 +154,7 @@ def sessOps (sv : IO.Ref Server) (args : List String) : IO (Option String) := do
 
 def mk : IO Handler := do
   let srv ← IO.mkRef ({} : Srv)
-  let cl ← IO.mkRef ({ anyPort := false, readIP := [], readPort := 0 } : CL)
+  let cl ← IO.mkRef ({ cl := { anyPort := false, readIP := [], readPort := 0 } } : CLQ)
   let sv ← IO.mkRef ({} : Server)
   return fun args => do
     match ← unitOps srv cl args with
